@@ -196,15 +196,19 @@ def takenInfo (dry : Bool) (ti : Info) (cks : List Chunk) : Info :=
             chunksDeleted := ti.chunksDeleted + (if dry = true then cks.length - ti.chunksDeleted else cks.length)
             deleted := true }
 
-/-- the loop of `truncateGlobally`; `ts` is the running total -/
-def globalLoop (strict : Bool) (gMin gMax : Nat) (p : Params) : List Info → Nat → List Part → List Info × List Part
+/-- the loop of `truncateGlobally`; `ts` is the running total. `acct` is the shape of the accounting as the extractor
+reads it: `false` — the removed bytes and chunks are accounted for (and the entry reported) only when the partition could
+be dropped (the code before the repair of finding F77: a partition in use is emptied silently and the pass goes on to the
+next one); `true` — `ts -= ti.AfterSize`, the chunk count and `AfterSize = 0` happen whenever the inner `truncate` ran,
+`ti.Deleted = deleted` says whether the drop succeeded -/
+def globalLoop (acct strict : Bool) (gMin gMax : Nat) (p : Params) : List Info → Nat → List Part → List Info × List Part
   | [], _, db => ([], db)
   | ti :: rest, ts, db =>
     if p.maxDB < ts then
       if 0 < ti.after then
         match dbFind db ti.src with
         | none =>
-          let r := globalLoop strict gMin gMax p rest ts db
+          let r := globalLoop acct strict gMin gMax p rest ts db
           (ti :: r.1, r.2)
         | some part =>
           let cks := part.chunks
@@ -212,13 +216,16 @@ def globalLoop (strict : Bool) (gMin gMax : Nat) (p : Params) : List Info → Na
           let deleted := p.dryRun || canDelete part.users tr.chunks
           let db1 := if p.dryRun = true then db else if deleted = true then dbRemove db ti.src else dbSet db ti.src tr.chunks
           if deleted = true then
-            let r := globalLoop strict gMin gMax p rest (sub64 ts ti.after) db1
+            let r := globalLoop acct strict gMin gMax p rest (sub64 ts ti.after) db1
             (takenInfo p.dryRun ti cks :: r.1, r.2)
+          else if acct = true then
+            let r := globalLoop acct strict gMin gMax p rest (sub64 ts ti.after) db1
+            ({ takenInfo p.dryRun ti cks with deleted := false } :: r.1, r.2)
           else
-            let r := globalLoop strict gMin gMax p rest ts db1
+            let r := globalLoop acct strict gMin gMax p rest ts db1
             (ti :: r.1, r.2)
       else
-        let r := globalLoop strict gMin gMax p rest ts db
+        let r := globalLoop acct strict gMin gMax p rest ts db
         (ti :: r.1, r.2)
     else (ti :: rest, db)
 
@@ -229,13 +236,13 @@ structure Outcome where
   reports : List Info
 deriving Repr
 
-def phase2 (strict : Bool) (gMin gMax : Nat) (p : Params) (st : St) : Outcome :=
-  let r := globalLoop strict gMin gMax p st.infos (totalAfter st.infos) st.db
+def phase2 (acct strict : Bool) (gMin gMax : Nat) (p : Params) (st : St) : Outcome :=
+  let r := globalLoop acct strict gMin gMax p st.infos (totalAfter st.infos) st.db
   ⟨r.2, st.reports ++ r.1.filter (fun ti => ti.after != ti.before)⟩
 
 /-- `Service.Truncate` over the partitions in visiting order -/
-def run (strict : Bool) (gMin gMax : Nat) (p : Params) (order : List Part) : Outcome :=
-  phase2 strict gMin gMax p (phase1 strict p order)
+def run (acct strict : Bool) (gMin gMax : Nat) (p : Params) (order : List Part) : Outcome :=
+  phase2 acct strict gMin gMax p (phase1 strict p order)
 
 end Logrange.Truncate
 
